@@ -3,8 +3,11 @@ package reconnect
 import (
 	"context"
 	stderrors "errors"
+	"fmt"
 	"sync"
 	"time"
+
+	"github.com/aptpod/iscp-go/errors"
 
 	"github.com/aptpod/iscp-go/internal/vf"
 	"github.com/aptpod/iscp-go/log"
@@ -20,6 +23,7 @@ type zzTr struct {
 	in        chan []byte
 	written   [][]byte
 	writeErrs int // the first writeErrs writes fail
+	writeErr  error // ... with this error (default zzErr)
 	readErr   bool // handshake / reads fail
 	closed    int
 }
@@ -44,6 +48,9 @@ func (t *zzTr) Write(bs []byte) error {
 	}
 	if t.writeErrs > 0 {
 		t.writeErrs--
+		if t.writeErr != nil {
+			return t.writeErr
+		}
 		return zzErr
 	}
 	c := make([]byte, len(bs))
@@ -245,6 +252,14 @@ func zzC18cWriteLoop() {
 	}
 	first.mu.Lock()
 	first.writeErrs = 1000
+	switch vf.Choose("write.failure.kind", 4) {
+	case 1: // the peer closed the connection normally (what the websocket transports report after a close frame)
+		first.writeErr = fmt.Errorf("peer closed: %w", errors.ErrConnectionNormalClose)
+	case 2:
+		first.writeErr = fmt.Errorf("abnormal: %w", errors.ErrConnectionAbnormalClose)
+	case 3:
+		first.writeErr = fmt.Errorf("closed: %w", errors.ErrConnectionClosed)
+	}
 	first.mu.Unlock()
 	if breakAt == 0 {
 		e1 = t.Write(m1)
